@@ -1,6 +1,8 @@
 package main
 
 import (
+	"time"
+	"sync"
 	"context"
 	"encoding/json"
 	"fmt"
@@ -120,4 +122,63 @@ func c18case(s *Sexp) string {
 	return strings.Join(outs, ";")
 }
 
-func init() { handlers["C18"] = c18case }
+// (setexcl (variant again|withlock) (n K)): operations on a synchronized set stay mutually exclusive
+// when Synchronize is called again, or a second mutex is refused by WithLock, while an operation
+// is inside the set. The sorter is parked inside its comparison function (it holds the set's
+// lock); a Len issued after the second Synchronize/WithLock must not complete until the sorter is
+// released. The wait only bounds how long we look for an overlap: on correct code Len cannot
+// complete whatever the timing, so the observation is deterministic there.
+func c18exclCase(s *Sexp) string {
+	variant, k := sxStr(s, "variant"), sxInt(s, "n", 5)
+	set := &dt.Set[int]{}
+	set.Synchronize()
+	set.Order()
+	for i := k; i > 0; i-- {
+		set.Add(i)
+	}
+	entered, release, sortDone, lenDone := make(chan struct{}), make(chan struct{}), make(chan struct{}), make(chan struct{})
+	var once sync.Once
+	go func() {
+		defer close(sortDone)
+		set.SortQuick(func(a, b int) bool {
+			once.Do(func() { close(entered) })
+			<-release
+			return a < b
+		})
+	}()
+	select {
+	case <-entered:
+	case <-time.After(10 * time.Second):
+		close(release)
+		return "excl no-comparison"
+	}
+	switch variant {
+	case "again":
+		set.Synchronize()
+	case "withlock":
+		func() {
+			defer func() { _ = recover() }()
+			set.WithLock(&sync.Mutex{})
+		}()
+	}
+	go func() { _ = set.Len(); close(lenDone) }()
+	overlapped := false
+	select {
+	case <-lenDone:
+		overlapped = true
+	case <-time.After(300 * time.Millisecond):
+	}
+	close(release)
+	<-sortDone
+	<-lenDone
+	return "excl overlapped=" + bit(overlapped)
+}
+
+func c18dispatch(s *Sexp) string {
+	if s.Head() == "setexcl" {
+		return c18exclCase(s)
+	}
+	return c18case(s)
+}
+
+func init() { handlers["C18"] = c18dispatch }
